@@ -515,7 +515,8 @@ impl Phase for Histories {
         self.n
     }
     fn run(&mut self, idx: u64, r: &mut Rng, out: &mut Out) {
-        let all_names = ["a", "b", "c", "d", "e", "f1", "g2", "h3", "i4", "j5", "k6", "l7", "m8", "n9", "o10", "p11", "q12", "r13", "s14", "t15"];
+        // (among the twenty: names other languages reserve or pre-define, and names differing only by zero padding or case)
+        let all_names = ["a", "b", "c", "_", "math::pi", "f1", "g2", "min", "x1", "x01", "X1", "l7", "math::e", "n9", "self", "len", "q12", "é", "e\u{301}", "if"];
         let names = if idx % 3 == 0 { &all_names[..] } else { &all_names[..5] };
         let steps = r.range(50, 300);
         out.begin(|| format!("random history #{} of {} steps", idx, steps));
@@ -667,6 +668,84 @@ impl Phase for ManyNames {
             out.violation(&format!("context/{}", rule), format!("{} variables, {} functions bound, then …{}", nv, nf, shown.join(" ; ")), e, o);
         }
         out.sample(|| format!("{} variables and {} functions, {} steps, state equals the model", nv, nf, hist.len()));
+    }
+}
+
+/// a user function that owns state by value (a counter): a clone of the context gets its own copy of the function and
+/// of its state, like of everything else in the context
+#[derive(Default)]
+struct Counter(std::sync::atomic::AtomicI64);
+
+impl Clone for Counter {
+    fn clone(&self) -> Self {
+        Counter(std::sync::atomic::AtomicI64::new(self.0.load(std::sync::atomic::Ordering::SeqCst)))
+    }
+}
+
+struct StatefulFunctions {
+    n: u64,
+}
+
+impl Phase for StatefulFunctions {
+    fn name(&self) -> String {
+        "stateful user functions across clones".into()
+    }
+    fn len(&self) -> u64 {
+        self.n
+    }
+    fn run(&mut self, idx: u64, r: &mut Rng, out: &mut Out) {
+        out.begin(|| format!("stateful function history #{}", idx));
+        let counter = Counter::default();
+        let mut ctxs: Vec<(Ctx, i64)> = Vec::new();
+        let mut c = Ctx::new();
+        let _ = c.set_function(
+            "next".into(),
+            evalexpr::Function::new(move |_| {
+                // (the whole Counter is captured, so that cloning the function clones the counter)
+                let whole: &Counter = &counter;
+                Ok(Value::Int(whole.0.fetch_add(1, std::sync::atomic::Ordering::SeqCst) + 1))
+            }),
+        );
+        ctxs.push((c, 0));
+        let mut hist: Vec<String> = Vec::new();
+        for _ in 0..r.range(5, 40) {
+            let k = r.below(ctxs.len());
+            match r.below(6) {
+                0 if ctxs.len() < 5 => {
+                    let cl = (ctxs[k].0.clone(), ctxs[k].1);
+                    hist.push(format!("[{}] = [{}].clone()", ctxs.len(), k));
+                    ctxs.push(cl);
+                },
+                1 if ctxs.len() >= 2 => {
+                    let j = r.below(ctxs.len());
+                    if j != k {
+                        let (src, n) = (ctxs[k].0.clone(), ctxs[k].1);
+                        ctxs[j].0.clone_from(&src);
+                        ctxs[j].1 = n;
+                        hist.push(format!("[{}].clone_from([{}])", j, k));
+                    }
+                },
+                _ => {
+                    let via_expr = r.chance(1, 2);
+                    let got = if via_expr { api::eval_str("next()", &ctxs[k].0).show() } else { format!("{:?}", ctxs[k].0.call_function("next", &Value::Empty)) };
+                    ctxs[k].1 += 1;
+                    out.eval();
+                    hist.push(format!("[{}].next()", k));
+                    let want = ctxs[k].1;
+                    if !got.contains(&format!("{}", want)) || got.contains("Err") {
+                        out.violation(
+                            "context/clone/function-state-shared",
+                            hist.join(" ; "),
+                            format!("{} (each context counts its own calls since it was cloned)", want),
+                            got,
+                        );
+                        return;
+                    }
+                },
+            }
+        }
+        out.nontrivial(&format!("stateful {}", idx));
+        out.sample(|| format!("{} steps over {} contexts: every clone keeps its own function state", hist.len(), ctxs.len()));
     }
 }
 
@@ -887,6 +966,9 @@ pub fn phases(cfg: &Cfg) -> Vec<Box<dyn Phase>> {
         }),
         Box::new(MacroBuilt {
             ops: all_ops(&["a", "b"]),
+        }),
+        Box::new(StatefulFunctions {
+            n: cfg.n(3_000, 100_000),
         }),
         Box::new(HugeContext {
             n: cfg.n(16, 64),
